@@ -19,13 +19,18 @@ import (
 func init() { runners["C16"] = runC16 }
 
 type C16Case struct {
-	Seed     uint64 `json:"seed"`
-	Files    int    `json:"files"`
-	Wounded  int    `json:"wounded"`  // number of damaged files (0: valid tree)
-	LastOnly bool   `json:"last_only"` // damage only in the last file
-	Consumer string `json:"consumer"` // failfast | woundsfile | badwoundsfile | printer | healer-missing-archive | failing-after-n
-	CancelAt int    `json:"cancel_at"` // -2: never; -1: before start; k: when progress reports file k
-	FailAfter int   `json:"fail_after,omitempty"`
+	Seed      uint64 `json:"seed"`
+	Files     int    `json:"files"`
+	Wounded   int    `json:"wounded"`   // number of damaged files (0: valid tree)
+	LastOnly  bool   `json:"last_only"` // damage only in the last file
+	Consumer  string `json:"consumer"`  // failfast | woundsfile | badwoundsfile | printer | healer-missing-archive | failing-after-n
+	CancelAt  int    `json:"cancel_at"` // -2: never; -1: before start; k: when progress reports file k
+	FailAfter int    `json:"fail_after,omitempty"`
+	// MidLast > 0: the last file of the container has MidLast blocks, the damage is a flipped byte in its final
+	// block, and the context is cancelled from the progress callback once validation is CancelBlocks blocks
+	// into that file (CancelAt is ignored)
+	MidLast      int `json:"mid_last,omitempty"`
+	CancelBlocks int `json:"cancel_blocks,omitempty"`
 }
 
 // failingConsumer returns an error after n wounds.
@@ -57,6 +62,9 @@ func c16One(env *Env, c *C16Case) {
 	}
 	b.Entries = append(b.Entries, wvlib.BEntry{Path: "big.bin", Kind: 'f', Data: r.Bytes(3*wvlib.BS + 5)})
 	b.Entries = append(b.Entries, wvlib.BEntry{Path: "lnk", Kind: 'l', Dest: "big.bin"})
+	if c.MidLast > 0 {
+		b.Entries = append(b.Entries, wvlib.BEntry{Path: "zz/zz-last.bin", Kind: 'f', Data: r.Bytes(c.MidLast*wvlib.BS - 7)})
+	}
 	b.Normalize()
 	base := env.Scratch.Sub("c16")
 	defer os.RemoveAll(base)
@@ -68,7 +76,13 @@ func c16One(env *Env, c *C16Case) {
 	dmg := b.Clone()
 	files := dmg.Files()
 	valid := c.Wounded == 0
-	if c.LastOnly && c.Wounded > 0 {
+	var cancelFraction float64 = -1
+	if c.MidLast > 0 {
+		lastF := sig.Container.Files[len(sig.Container.Files)-1]
+		d := dmg.Find(lastF.Path).Data
+		d[len(d)-1-r.Intn(wvlib.BS/2)] ^= 0x10
+		cancelFraction = float64(sig.Container.Size-lastF.Size+int64(c.CancelBlocks)*int64(wvlib.BS)) / float64(sig.Container.Size)
+	} else if c.LastOnly && c.Wounded > 0 {
 		last := sig.Container.Files[len(sig.Container.Files)-1].Path
 		dmg.Find(last).Data[0] ^= 1
 	} else {
@@ -94,6 +108,12 @@ func c16One(env *Env, c *C16Case) {
 	consumer := &state.Consumer{
 		OnProgress: func(p float64) {
 			n := atomic.AddInt64(&progressCalls, 1)
+			if cancelFraction >= 0 {
+				if p >= cancelFraction {
+					cancel()
+				}
+				return
+			}
 			if c.CancelAt >= 0 && n >= int64(c.CancelAt)*2 && total > 0 {
 				cancel()
 			}
@@ -138,7 +158,7 @@ func c16One(env *Env, c *C16Case) {
 	}
 	if c.Consumer == "failfast" && verr == nil && !valid {
 		cls := "false-valid"
-		if c.CancelAt != -2 {
+		if c.CancelAt != -2 || c.MidLast > 0 {
 			cls = "false-valid:cancelled"
 		}
 		env.R.Violate(cls, fmt.Sprintf("fail-fast validation returned nil on a damaged directory (cancel_at=%d)", c.CancelAt), c)
@@ -158,7 +178,10 @@ func c16One(env *Env, c *C16Case) {
 	if leaked > 2 {
 		env.R.Count("goroutines-left-after-return", 1)
 	}
-	env.R.Eval(c.Seed^uint64(c.CancelAt+5)<<24^uint64(len(c.Consumer))<<32^uint64(c.Wounded)<<40, !valid || c.CancelAt != -2)
+	env.R.Eval(c.Seed^uint64(c.CancelAt+5)<<24^uint64(len(c.Consumer))<<32^uint64(c.Wounded)<<40^uint64(c.MidLast)<<50^uint64(c.CancelBlocks)<<56, !valid || c.CancelAt != -2)
+	if c.MidLast > 0 {
+		env.R.Count("cancelled-mid-last-file", 1)
+	}
 	env.R.Count("consumer:"+c.Consumer, 1)
 	if c.CancelAt != -2 {
 		env.R.Count("cancelled", 1)
@@ -182,7 +205,7 @@ func validateWithConsumer(ctx context.Context, vctx *pwr.ValidatorContext, dir s
 
 func runC16(env *Env) {
 	R := env.R
-	R.Rule = "builds with 0..3000 damaged files (more wounds than the 1024-slot channel, damage only in the last file) x consumers {fail-fast, wounds file, unwritable wounds file (consumer fails on the first wound), printer, healer with a missing archive} x cancellation {never, before start, when progress reaches file k}; 25 s watchdog; distinct by (seed, consumer, cancellation); non-trivial = damaged or cancelled"
+	R.Rule = "builds with 0..3000 damaged files (more wounds than the 1024-slot channel, damage only in the last file) x consumers {fail-fast, wounds file, unwritable wounds file (consumer fails on the first wound), printer, healer with a missing archive} x cancellation {never, before start, when progress reaches file k, while the last (multi-block) file is being hashed with the damage in its final block}; 25 s watchdog; distinct by (seed, consumer, cancellation); non-trivial = damaged or cancelled"
 	if env.Replay != "" {
 		var c C16Case
 		replayCase(env, &c)
@@ -209,6 +232,17 @@ func runC16(env *Env) {
 				cases = append(cases, &C16Case{Seed: rng.Next(), Files: sz[0], Wounded: sz[1], LastOnly: sz[1] == 1, Consumer: cons, CancelAt: ca})
 			}
 		}
+	}
+	// cancellation while the LAST file is being hashed, the damage lying beyond the point reached
+	midN := 6
+	if env.Thorough() {
+		midN = 60
+	}
+	for i := 0; i < midN; i++ {
+		ml := rng.Pick(3, 8, 20, 48)
+		cons := []string{"failfast", "failfast", "healer-missing-archive", "woundsfile"}[i%4]
+		cases = append(cases, &C16Case{Seed: rng.Next(), Files: rng.Pick(0, 2, 30), Wounded: 1, Consumer: cons, CancelAt: -2,
+			MidLast: ml, CancelBlocks: rng.Intn(ml - 1)})
 	}
 	par := env.Workers
 	if par > 6 {
